@@ -67,7 +67,7 @@ theorem C09_fragment_definitions_linked (s : Schema) (d : QueryDoc) (evs : List 
     ∀ f ∈ d.frags, ∃ e ∈ evs, e.p = .fragment f (s.type? f.typeCond) := by
   intro f hf
   rw [← (walkDoc_events s.view d evs h).2] at hf
-  obtain ⟨e, he, dfn, hp⟩ := mem_fragEvents.1 hf
+  obtain ⟨e, he, dfn, hp⟩ := mem_fragDefEvents.1 hf
   have := C09_links_correct_partial s d evs h e he
   rw [hp] at this
   exact ⟨e, he, by rw [hp]; exact congrArg _ this⟩
